@@ -452,7 +452,7 @@ package ast
 //@   ghost_entry $asgVal = newVal
 //@   ghost_entry $asgExprSnap = $exprRes
 //@   ghost_entry $asgVarSnap = $varRes
-//@   ensures[C01,C02] invalidates: err == nil ==> (forall x *Expression :: inExprIdx(memory, e, x) ==> !x.Evaluated) && (forall a *ExpressionAtom :: inAtomIdx(memory, e, a) ==> !a.Evaluated)
+//@   ensures[C01,C02,C04] invalidates: err == nil ==> (forall x *Expression :: inExprIdx(memory, e, x) ==> !x.Evaluated) && (forall a *ExpressionAtom :: inAtomIdx(memory, e, a) ==> !a.Evaluated)
 //@   ensures[C13] nothingelse: (forall x *Expression :: old(x.Evaluated) && !inExprIdx(memory, e, x) ==> x.Evaluated) && (forall a *ExpressionAtom :: old(a.Evaluated) && !inAtomIdx(memory, e, a) ==> a.Evaluated)
 //@   ensures[C04] toplevel: len(e.Name) > 0 && e.Variable == nil && err == nil ==> $addN == old($addN) + 1 && $addKey == e.Name && boxedRV($addObj) == newVal && $setN == old($setN)
 //@   ensures[C04] field: e.Variable != nil && len(e.Name) > 0 && err == nil ==> $setN == old($setN) + 1 && $setKind == 1 && $setNode == e.Variable.ValueNode && $setField == e.Name && $setVal == newVal && $addN == old($addN)
@@ -595,3 +595,448 @@ package ast
 //@   modifies $complete
 //@   ensures $complete[gf.DataContext]
 //@   ensures forall d Ref :: old($complete[d]) ==> $complete[d]
+
+// =========================================================================================================
+// C12 / C20: binary store / load at TOKEN level. The byte stream is abstracted to a sequence of tokens
+// (kind 1 string, 2 uint64, 3 bool, 4 float64, 5 raw bytes); the eight primitives are T-IO externs that DEFINE
+// the abstraction: a successful WriteX appends one token, ReadX consumes the next token if it is complete.
+// $rEnd is the number of COMPLETE tokens in the input: a stream cut at any byte ends inside or after token $rEnd-1.
+// =========================================================================================================
+//@ ghost var $wN int
+//@ ghost var $wK array[int]int
+//@ ghost var $wS array[int]string
+//@ ghost var $wI array[int]int
+//@ ghost var $wB array[int]bool
+//@ ghost var $wF array[int]float64
+//@ ghost var $wErrN int                 // failed writes so far
+//@ ghost var $rPos int
+//@ ghost var $rEnd int
+//@ ghost var $rK array[int]int
+//@ ghost var $rS array[int]string
+//@ ghost var $rI array[int]int
+//@ ghost var $rB array[int]bool
+//@ ghost var $rF array[int]float64
+//@ ghost var $rAlloc int                // elements allocated by readers on behalf of length prefixes (C20)
+//@ modset wstream = $wN, $wK, $wS, $wI, $wB, $wF, $wErrN
+//@ modset rstream = $rPos, $consumed, $allocated, global TotalRead, global ReadCount
+//@ pure func wrap_u64(x int) int { return x % 18446744073709551616 }
+//@ pure func wrap_s64(x int) int { return (x + 9223372036854775808) % 18446744073709551616 - 9223372036854775808 }
+//@ macro func wPrefixKept(n0 int) bool { return forall j int :: 0 <= j && j < n0 ==> $wK[j] == old($wK[j]) && $wS[j] == old($wS[j]) && $wI[j] == old($wI[j]) && $wB[j] == old($wB[j]) && $wF[j] == old($wF[j]) }
+
+//@ extern func WriteStringToWriter(writer, s) (err)
+//@   nopanic
+//@   ghost_exit $wS = ite(err == nil, store($wS, $wN, s), $wS)
+//@   ghost_exit $wK = ite(err == nil, store($wK, $wN, 1), $wK)
+//@   ghost_exit $wN = ite(err == nil, $wN + 1, $wN)
+//@   ghost_exit $wErrN = ite(err != nil, $wErrN + 1, $wErrN)
+//@ extern func WriteIntToWriter(w, i) (err)
+//@   nopanic
+//@   ghost_exit $wI = ite(err == nil, store($wI, $wN, i), $wI)
+//@   ghost_exit $wK = ite(err == nil, store($wK, $wN, 2), $wK)
+//@   ghost_exit $wN = ite(err == nil, $wN + 1, $wN)
+//@   ghost_exit $wErrN = ite(err != nil, $wErrN + 1, $wErrN)
+//@ extern func WriteBoolToWriter(writer, aBoolean) (err)
+//@   nopanic
+//@   ghost_exit $wB = ite(err == nil, store($wB, $wN, aBoolean), $wB)
+//@   ghost_exit $wK = ite(err == nil, store($wK, $wN, 3), $wK)
+//@   ghost_exit $wN = ite(err == nil, $wN + 1, $wN)
+//@   ghost_exit $wErrN = ite(err != nil, $wErrN + 1, $wErrN)
+//@ extern func WriteFloatToWriter(w, f) (err)
+//@   nopanic
+//@   ghost_exit $wF = ite(err == nil, store($wF, $wN, f), $wF)
+//@   ghost_exit $wK = ite(err == nil, store($wK, $wN, 4), $wK)
+//@   ghost_exit $wN = ite(err == nil, $wN + 1, $wN)
+//@   ghost_exit $wErrN = ite(err != nil, $wErrN + 1, $wErrN)
+
+// ReadX: succeeds iff the next token is complete (truncation => error); a token of the expected kind decodes to its payload
+// T-IO
+//@ ghost var $consumed int              // bytes the reader has delivered so far
+//@ ghost var $allocated int             // elements allocated with make() so far
+//@ extern func io.ReadFull(r, buf) (n, err)
+//@   nopanic
+//@   ensures 0 <= n && n <= len(buf) && (err == nil ==> n == len(buf))
+//@   ghost_exit $consumed = $consumed + n
+//@ extern func (r io.Reader) Read(p) (n, err)
+//@   nopanic
+//@   ensures 0 <= n && n <= len(p)
+//@   ghost_exit $consumed = $consumed + n
+//@ extern func (w io.Writer) Write(p) (n, err)
+//@   nopanic
+//@   ensures 0 <= n && n <= len(p) && (n < len(p) ==> err != nil)
+// ReadStringFromReader is CHECKED for the safety clauses (C20) and carries the token-level abstraction as trusted clauses.
+//@ func ReadStringFromReader(reader) (s, err)
+//@   serves C20
+//@   requires reader != nil
+//@   modifies global TotalRead, global ReadCount, $allocated, $consumed
+//@   trusted_ensures (err == nil) == (old($rPos) < $rEnd)
+//@   trusted_ensures err == nil && $rK[old($rPos)] == 1 ==> s == $rS[old($rPos)]
+//@   ghost_exit $rPos = ite(err == nil, $rPos + 1, $rPos)
+//@   nopanic
+//@   ensures[C20] allocbounded: $allocated - old($allocated) <= 2 * ($consumed - old($consumed)) + 16
+//@ extern func ReadIntFromReader(r) (i, err)
+//@   nopanic
+//@   ensures (err == nil) == (old($rPos) < $rEnd)
+//@   ensures i >= 0 && i <= 18446744073709551615
+//@   ensures err == nil && $rK[old($rPos)] == 2 ==> i == $rI[old($rPos)]
+//@   ghost_exit $rPos = ite(err == nil, $rPos + 1, $rPos)
+//@ extern func ReadBoolFromReader(r) (b, err)
+//@   nopanic
+//@   ensures (err == nil) == (old($rPos) < $rEnd)
+//@   ensures err == nil && $rK[old($rPos)] == 3 ==> b == $rB[old($rPos)]
+//@   ghost_exit $rPos = ite(err == nil, $rPos + 1, $rPos)
+//@ extern func ReadFloatFromReader(r) (f, err)
+//@   nopanic
+//@   ensures (err == nil) == (old($rPos) < $rEnd)
+//@   ensures err == nil && $rK[old($rPos)] == 4 ==> f == $rF[old($rPos)]
+//@   ghost_exit $rPos = ite(err == nil, $rPos + 1, $rPos)
+
+// ---- NodeMeta: token layout = NodeMeta fields, then the struct's own fields in DECLARATION order ----
+//@ macro func layNodeMeta(K array[int]int, S array[int]string, I array[int]int, B array[int]bool, p int, m *NodeMeta) bool { return K[p+0] == 1 && S[p+0] == m.AstID && K[p+1] == 1 && S[p+1] == m.GrlText && K[p+2] == 1 && S[p+2] == m.Snapshot }
+//@ macro func kindsNodeMeta(K array[int]int, p int) bool { return K[p+0] == 1 && K[p+1] == 1 && K[p+2] == 1 }
+//@ macro func sameNodeMeta(a *NodeMeta, b *NodeMeta) bool { return a.AstID == b.AstID && a.GrlText == b.GrlText && a.Snapshot == b.Snapshot }
+//@ func (meta *NodeMeta) WriteMetaTo(writer) (err)
+//@   serves C12
+//@   requires meta != nil && writer != nil
+//@   nopanic
+//@   modifies @wstream
+//@   ensures[C12] encodes: err == nil ==> $wN == old($wN) + 3 && layNodeMeta($wK, $wS, $wI, $wB, old($wN), meta)
+//@   ensures[C12] prefixkept: wPrefixKept(old($wN))
+//@   ensures[C12] errorsurfaces: ($wErrN > old($wErrN)) == (err != nil) && $wErrN >= old($wErrN)
+//@ func (meta *NodeMeta) ReadMetaFrom(reader) (err)
+//@   serves C12 C20
+//@   requires meta != nil && reader != nil && $rPos >= 0
+//@   nopanic
+//@   modifies NodeMeta.*, @rstream
+//@   ensures[C12] decodes: err == nil && kindsNodeMeta($rK, old($rPos)) ==> $rPos == old($rPos) + 3 && layNodeMetaR($rK, $rS, $rI, $rB, old($rPos), meta)
+//@   ensures[C12] completeloads: kindsNodeMeta($rK, old($rPos)) && old($rPos) + 3 <= $rEnd ==> err == nil
+//@   ensures[C12] truncationfails: err == nil ==> $rPos <= $rEnd && $rPos >= old($rPos)
+//@ lemma[C12] mirror_NodeMeta: forall K array[int]int, S array[int]string, I array[int]int, B array[int]bool, p int, a *NodeMeta, b *NodeMeta :: layNodeMeta(K, S, I, B, p, a) && layNodeMetaR(K, S, I, B, p, b) ==> sameNodeMeta(a, b)
+//@ macro func layNodeMetaR(K array[int]int, S array[int]string, I array[int]int, B array[int]bool, p int, m *NodeMeta) bool { return K[p+0] == 1 && S[p+0] == m.AstID && K[p+1] == 1 && S[p+1] == m.GrlText && K[p+2] == 1 && S[p+2] == m.Snapshot }
+
+// ---- ArrayMapSelectorMeta: token layout = NodeMeta fields, then the struct's own fields in DECLARATION order ----
+//@ macro func layArrayMapSelectorMeta(K array[int]int, S array[int]string, I array[int]int, B array[int]bool, p int, m *ArrayMapSelectorMeta) bool { return K[p+0] == 1 && S[p+0] == m.AstID && K[p+1] == 1 && S[p+1] == m.GrlText && K[p+2] == 1 && S[p+2] == m.Snapshot && K[p+3] == 1 && S[p+3] == m.ExpressionID }
+//@ macro func kindsArrayMapSelectorMeta(K array[int]int, p int) bool { return K[p+0] == 1 && K[p+1] == 1 && K[p+2] == 1 && K[p+3] == 1 }
+//@ macro func sameArrayMapSelectorMeta(a *ArrayMapSelectorMeta, b *ArrayMapSelectorMeta) bool { return a.AstID == b.AstID && a.GrlText == b.GrlText && a.Snapshot == b.Snapshot && a.ExpressionID == b.ExpressionID }
+//@ func (meta *ArrayMapSelectorMeta) WriteMetaTo(writer) (err)
+//@   serves C12
+//@   requires meta != nil && writer != nil
+//@   nopanic
+//@   modifies @wstream
+//@   ensures[C12] encodes: err == nil ==> $wN == old($wN) + 4 && layArrayMapSelectorMeta($wK, $wS, $wI, $wB, old($wN), meta)
+//@   ensures[C12] prefixkept: wPrefixKept(old($wN))
+//@   ensures[C12] errorsurfaces: ($wErrN > old($wErrN)) == (err != nil) && $wErrN >= old($wErrN)
+//@ func (meta *ArrayMapSelectorMeta) ReadMetaFrom(reader) (err)
+//@   serves C12 C20
+//@   requires meta != nil && reader != nil && $rPos >= 0
+//@   nopanic
+//@   modifies ArrayMapSelectorMeta.*, @rstream
+//@   ensures[C12] decodes: err == nil && kindsArrayMapSelectorMeta($rK, old($rPos)) ==> $rPos == old($rPos) + 4 && layArrayMapSelectorMetaR($rK, $rS, $rI, $rB, old($rPos), meta)
+//@   ensures[C12] completeloads: kindsArrayMapSelectorMeta($rK, old($rPos)) && old($rPos) + 4 <= $rEnd ==> err == nil
+//@   ensures[C12] truncationfails: err == nil ==> $rPos <= $rEnd && $rPos >= old($rPos)
+//@ lemma[C12] mirror_ArrayMapSelectorMeta: forall K array[int]int, S array[int]string, I array[int]int, B array[int]bool, p int, a *ArrayMapSelectorMeta, b *ArrayMapSelectorMeta :: layArrayMapSelectorMeta(K, S, I, B, p, a) && layArrayMapSelectorMetaR(K, S, I, B, p, b) ==> sameArrayMapSelectorMeta(a, b)
+//@ macro func layArrayMapSelectorMetaR(K array[int]int, S array[int]string, I array[int]int, B array[int]bool, p int, m *ArrayMapSelectorMeta) bool { return K[p+0] == 1 && S[p+0] == m.AstID && K[p+1] == 1 && S[p+1] == m.GrlText && K[p+2] == 1 && S[p+2] == m.Snapshot && K[p+3] == 1 && S[p+3] == m.ExpressionID }
+
+// ---- AssigmentMeta: token layout = NodeMeta fields, then the struct's own fields in DECLARATION order ----
+//@ macro func layAssigmentMeta(K array[int]int, S array[int]string, I array[int]int, B array[int]bool, p int, m *AssigmentMeta) bool { return K[p+0] == 1 && S[p+0] == m.AstID && K[p+1] == 1 && S[p+1] == m.GrlText && K[p+2] == 1 && S[p+2] == m.Snapshot && K[p+3] == 1 && S[p+3] == m.VariableID && K[p+4] == 1 && S[p+4] == m.ExpressionID && K[p+5] == 3 && B[p+5] == m.IsAssign && K[p+6] == 3 && B[p+6] == m.IsPlusAssign && K[p+7] == 3 && B[p+7] == m.IsMinusAssign && K[p+8] == 3 && B[p+8] == m.IsDivAssign && K[p+9] == 3 && B[p+9] == m.IsMulAssign }
+//@ macro func kindsAssigmentMeta(K array[int]int, p int) bool { return K[p+0] == 1 && K[p+1] == 1 && K[p+2] == 1 && K[p+3] == 1 && K[p+4] == 1 && K[p+5] == 3 && K[p+6] == 3 && K[p+7] == 3 && K[p+8] == 3 && K[p+9] == 3 }
+//@ macro func sameAssigmentMeta(a *AssigmentMeta, b *AssigmentMeta) bool { return a.AstID == b.AstID && a.GrlText == b.GrlText && a.Snapshot == b.Snapshot && a.VariableID == b.VariableID && a.ExpressionID == b.ExpressionID && a.IsAssign == b.IsAssign && a.IsPlusAssign == b.IsPlusAssign && a.IsMinusAssign == b.IsMinusAssign && a.IsDivAssign == b.IsDivAssign && a.IsMulAssign == b.IsMulAssign }
+//@ func (meta *AssigmentMeta) WriteMetaTo(writer) (err)
+//@   serves C12
+//@   requires meta != nil && writer != nil
+//@   nopanic
+//@   modifies @wstream
+//@   ensures[C12] encodes: err == nil ==> $wN == old($wN) + 10 && layAssigmentMeta($wK, $wS, $wI, $wB, old($wN), meta)
+//@   ensures[C12] prefixkept: wPrefixKept(old($wN))
+//@   ensures[C12] errorsurfaces: ($wErrN > old($wErrN)) == (err != nil) && $wErrN >= old($wErrN)
+//@ func (meta *AssigmentMeta) ReadMetaFrom(reader) (err)
+//@   serves C12 C20
+//@   requires meta != nil && reader != nil && $rPos >= 0
+//@   nopanic
+//@   modifies AssigmentMeta.*, @rstream
+//@   ensures[C12] decodes: err == nil && kindsAssigmentMeta($rK, old($rPos)) ==> $rPos == old($rPos) + 10 && layAssigmentMetaR($rK, $rS, $rI, $rB, old($rPos), meta)
+//@   ensures[C12] completeloads: kindsAssigmentMeta($rK, old($rPos)) && old($rPos) + 10 <= $rEnd ==> err == nil
+//@   ensures[C12] truncationfails: err == nil ==> $rPos <= $rEnd && $rPos >= old($rPos)
+//@ lemma[C12] mirror_AssigmentMeta: forall K array[int]int, S array[int]string, I array[int]int, B array[int]bool, p int, a *AssigmentMeta, b *AssigmentMeta :: layAssigmentMeta(K, S, I, B, p, a) && layAssigmentMetaR(K, S, I, B, p, b) ==> sameAssigmentMeta(a, b)
+//@ macro func layAssigmentMetaR(K array[int]int, S array[int]string, I array[int]int, B array[int]bool, p int, m *AssigmentMeta) bool { return K[p+0] == 1 && S[p+0] == m.AstID && K[p+1] == 1 && S[p+1] == m.GrlText && K[p+2] == 1 && S[p+2] == m.Snapshot && K[p+3] == 1 && S[p+3] == m.VariableID && K[p+4] == 1 && S[p+4] == m.ExpressionID && K[p+5] == 3 && B[p+5] == m.IsAssign && K[p+6] == 3 && B[p+6] == m.IsPlusAssign && K[p+7] == 3 && B[p+7] == m.IsMinusAssign && K[p+8] == 3 && B[p+8] == m.IsDivAssign && K[p+9] == 3 && B[p+9] == m.IsMulAssign }
+
+// ---- ExpressionMeta: token layout = NodeMeta fields, then the struct's own fields in DECLARATION order ----
+//@ macro func layExpressionMeta(K array[int]int, S array[int]string, I array[int]int, B array[int]bool, p int, m *ExpressionMeta) bool { return K[p+0] == 1 && S[p+0] == m.AstID && K[p+1] == 1 && S[p+1] == m.GrlText && K[p+2] == 1 && S[p+2] == m.Snapshot && K[p+3] == 1 && S[p+3] == m.LeftExpressionID && K[p+4] == 1 && S[p+4] == m.RightExpressionID && K[p+5] == 1 && S[p+5] == m.SingleExpressionID && K[p+6] == 1 && S[p+6] == m.ExpressionAtomID && K[p+7] == 2 && I[p+7] == wrap_u64(m.Operator) && K[p+8] == 3 && B[p+8] == m.Negated }
+//@ macro func kindsExpressionMeta(K array[int]int, p int) bool { return K[p+0] == 1 && K[p+1] == 1 && K[p+2] == 1 && K[p+3] == 1 && K[p+4] == 1 && K[p+5] == 1 && K[p+6] == 1 && K[p+7] == 2 && K[p+8] == 3 }
+//@ macro func sameExpressionMeta(a *ExpressionMeta, b *ExpressionMeta) bool { return a.AstID == b.AstID && a.GrlText == b.GrlText && a.Snapshot == b.Snapshot && a.LeftExpressionID == b.LeftExpressionID && a.RightExpressionID == b.RightExpressionID && a.SingleExpressionID == b.SingleExpressionID && a.ExpressionAtomID == b.ExpressionAtomID && a.Operator == b.Operator && a.Negated == b.Negated }
+//@ func (meta *ExpressionMeta) WriteMetaTo(writer) (err)
+//@   serves C12
+//@   requires meta != nil && writer != nil && -9223372036854775808 <= meta.Operator && meta.Operator <= 9223372036854775807
+//@   nopanic
+//@   modifies @wstream
+//@   ensures[C12] encodes: err == nil ==> $wN == old($wN) + 9 && layExpressionMeta($wK, $wS, $wI, $wB, old($wN), meta)
+//@   ensures[C12] prefixkept: wPrefixKept(old($wN))
+//@   ensures[C12] errorsurfaces: ($wErrN > old($wErrN)) == (err != nil) && $wErrN >= old($wErrN)
+//@ func (meta *ExpressionMeta) ReadMetaFrom(reader) (err)
+//@   serves C12 C20
+//@   requires meta != nil && reader != nil && $rPos >= 0
+//@   nopanic
+//@   modifies ExpressionMeta.*, @rstream
+//@   ensures[C12] decodes: err == nil && kindsExpressionMeta($rK, old($rPos)) ==> $rPos == old($rPos) + 9 && layExpressionMetaR($rK, $rS, $rI, $rB, old($rPos), meta)
+//@   ensures[C12] completeloads: kindsExpressionMeta($rK, old($rPos)) && old($rPos) + 9 <= $rEnd ==> err == nil
+//@   ensures[C12] truncationfails: err == nil ==> $rPos <= $rEnd && $rPos >= old($rPos)
+//@ lemma[C12] mirror_ExpressionMeta: forall K array[int]int, S array[int]string, I array[int]int, B array[int]bool, p int, a *ExpressionMeta, b *ExpressionMeta :: layExpressionMeta(K, S, I, B, p, a) && layExpressionMetaR(K, S, I, B, p, b) && -9223372036854775808 <= a.Operator && a.Operator <= 9223372036854775807 ==> sameExpressionMeta(a, b)
+//@ macro func layExpressionMetaR(K array[int]int, S array[int]string, I array[int]int, B array[int]bool, p int, m *ExpressionMeta) bool { return K[p+0] == 1 && S[p+0] == m.AstID && K[p+1] == 1 && S[p+1] == m.GrlText && K[p+2] == 1 && S[p+2] == m.Snapshot && K[p+3] == 1 && S[p+3] == m.LeftExpressionID && K[p+4] == 1 && S[p+4] == m.RightExpressionID && K[p+5] == 1 && S[p+5] == m.SingleExpressionID && K[p+6] == 1 && S[p+6] == m.ExpressionAtomID && K[p+7] == 2 && m.Operator == wrap_s64(I[p+7]) && K[p+8] == 3 && B[p+8] == m.Negated }
+
+// ---- ExpressionAtomMeta: token layout = NodeMeta fields, then the struct's own fields in DECLARATION order ----
+//@ macro func layExpressionAtomMeta(K array[int]int, S array[int]string, I array[int]int, B array[int]bool, p int, m *ExpressionAtomMeta) bool { return K[p+0] == 1 && S[p+0] == m.AstID && K[p+1] == 1 && S[p+1] == m.GrlText && K[p+2] == 1 && S[p+2] == m.Snapshot && K[p+3] == 1 && S[p+3] == m.VariableName && K[p+4] == 1 && S[p+4] == m.ConstantID && K[p+5] == 1 && S[p+5] == m.FunctionCallID && K[p+6] == 1 && S[p+6] == m.VariableID && K[p+7] == 3 && B[p+7] == m.Negated && K[p+8] == 1 && S[p+8] == m.ExpressionAtomID && K[p+9] == 1 && S[p+9] == m.ArrayMapSelectorID }
+//@ macro func kindsExpressionAtomMeta(K array[int]int, p int) bool { return K[p+0] == 1 && K[p+1] == 1 && K[p+2] == 1 && K[p+3] == 1 && K[p+4] == 1 && K[p+5] == 1 && K[p+6] == 1 && K[p+7] == 3 && K[p+8] == 1 && K[p+9] == 1 }
+//@ macro func sameExpressionAtomMeta(a *ExpressionAtomMeta, b *ExpressionAtomMeta) bool { return a.AstID == b.AstID && a.GrlText == b.GrlText && a.Snapshot == b.Snapshot && a.VariableName == b.VariableName && a.ConstantID == b.ConstantID && a.FunctionCallID == b.FunctionCallID && a.VariableID == b.VariableID && a.Negated == b.Negated && a.ExpressionAtomID == b.ExpressionAtomID && a.ArrayMapSelectorID == b.ArrayMapSelectorID }
+//@ func (meta *ExpressionAtomMeta) WriteMetaTo(writer) (err)
+//@   serves C12
+//@   requires meta != nil && writer != nil
+//@   nopanic
+//@   modifies @wstream
+//@   ensures[C12] encodes: err == nil ==> $wN == old($wN) + 10 && layExpressionAtomMeta($wK, $wS, $wI, $wB, old($wN), meta)
+//@   ensures[C12] prefixkept: wPrefixKept(old($wN))
+//@   ensures[C12] errorsurfaces: ($wErrN > old($wErrN)) == (err != nil) && $wErrN >= old($wErrN)
+//@ func (meta *ExpressionAtomMeta) ReadMetaFrom(reader) (err)
+//@   serves C12 C20
+//@   requires meta != nil && reader != nil && $rPos >= 0
+//@   nopanic
+//@   modifies ExpressionAtomMeta.*, @rstream
+//@   ensures[C12] decodes: err == nil && kindsExpressionAtomMeta($rK, old($rPos)) ==> $rPos == old($rPos) + 10 && layExpressionAtomMetaR($rK, $rS, $rI, $rB, old($rPos), meta)
+//@   ensures[C12] completeloads: kindsExpressionAtomMeta($rK, old($rPos)) && old($rPos) + 10 <= $rEnd ==> err == nil
+//@   ensures[C12] truncationfails: err == nil ==> $rPos <= $rEnd && $rPos >= old($rPos)
+//@ lemma[C12] mirror_ExpressionAtomMeta: forall K array[int]int, S array[int]string, I array[int]int, B array[int]bool, p int, a *ExpressionAtomMeta, b *ExpressionAtomMeta :: layExpressionAtomMeta(K, S, I, B, p, a) && layExpressionAtomMetaR(K, S, I, B, p, b) ==> sameExpressionAtomMeta(a, b)
+//@ macro func layExpressionAtomMetaR(K array[int]int, S array[int]string, I array[int]int, B array[int]bool, p int, m *ExpressionAtomMeta) bool { return K[p+0] == 1 && S[p+0] == m.AstID && K[p+1] == 1 && S[p+1] == m.GrlText && K[p+2] == 1 && S[p+2] == m.Snapshot && K[p+3] == 1 && S[p+3] == m.VariableName && K[p+4] == 1 && S[p+4] == m.ConstantID && K[p+5] == 1 && S[p+5] == m.FunctionCallID && K[p+6] == 1 && S[p+6] == m.VariableID && K[p+7] == 3 && B[p+7] == m.Negated && K[p+8] == 1 && S[p+8] == m.ExpressionAtomID && K[p+9] == 1 && S[p+9] == m.ArrayMapSelectorID }
+
+// ---- FunctionCallMeta: token layout = NodeMeta fields, then the struct's own fields in DECLARATION order ----
+//@ macro func layFunctionCallMeta(K array[int]int, S array[int]string, I array[int]int, B array[int]bool, p int, m *FunctionCallMeta) bool { return K[p+0] == 1 && S[p+0] == m.AstID && K[p+1] == 1 && S[p+1] == m.GrlText && K[p+2] == 1 && S[p+2] == m.Snapshot && K[p+3] == 1 && S[p+3] == m.FunctionName && K[p+4] == 1 && S[p+4] == m.ArgumentListID }
+//@ macro func kindsFunctionCallMeta(K array[int]int, p int) bool { return K[p+0] == 1 && K[p+1] == 1 && K[p+2] == 1 && K[p+3] == 1 && K[p+4] == 1 }
+//@ macro func sameFunctionCallMeta(a *FunctionCallMeta, b *FunctionCallMeta) bool { return a.AstID == b.AstID && a.GrlText == b.GrlText && a.Snapshot == b.Snapshot && a.FunctionName == b.FunctionName && a.ArgumentListID == b.ArgumentListID }
+//@ func (meta *FunctionCallMeta) WriteMetaTo(writer) (err)
+//@   serves C12
+//@   requires meta != nil && writer != nil
+//@   nopanic
+//@   modifies @wstream
+//@   ensures[C12] encodes: err == nil ==> $wN == old($wN) + 5 && layFunctionCallMeta($wK, $wS, $wI, $wB, old($wN), meta)
+//@   ensures[C12] prefixkept: wPrefixKept(old($wN))
+//@   ensures[C12] errorsurfaces: ($wErrN > old($wErrN)) == (err != nil) && $wErrN >= old($wErrN)
+//@ func (meta *FunctionCallMeta) ReadMetaFrom(reader) (err)
+//@   serves C12 C20
+//@   requires meta != nil && reader != nil && $rPos >= 0
+//@   nopanic
+//@   modifies FunctionCallMeta.*, @rstream
+//@   ensures[C12] decodes: err == nil && kindsFunctionCallMeta($rK, old($rPos)) ==> $rPos == old($rPos) + 5 && layFunctionCallMetaR($rK, $rS, $rI, $rB, old($rPos), meta)
+//@   ensures[C12] completeloads: kindsFunctionCallMeta($rK, old($rPos)) && old($rPos) + 5 <= $rEnd ==> err == nil
+//@   ensures[C12] truncationfails: err == nil ==> $rPos <= $rEnd && $rPos >= old($rPos)
+//@ lemma[C12] mirror_FunctionCallMeta: forall K array[int]int, S array[int]string, I array[int]int, B array[int]bool, p int, a *FunctionCallMeta, b *FunctionCallMeta :: layFunctionCallMeta(K, S, I, B, p, a) && layFunctionCallMetaR(K, S, I, B, p, b) ==> sameFunctionCallMeta(a, b)
+//@ macro func layFunctionCallMetaR(K array[int]int, S array[int]string, I array[int]int, B array[int]bool, p int, m *FunctionCallMeta) bool { return K[p+0] == 1 && S[p+0] == m.AstID && K[p+1] == 1 && S[p+1] == m.GrlText && K[p+2] == 1 && S[p+2] == m.Snapshot && K[p+3] == 1 && S[p+3] == m.FunctionName && K[p+4] == 1 && S[p+4] == m.ArgumentListID }
+
+// ---- RuleEntryMeta: token layout = NodeMeta fields, then the struct's own fields in DECLARATION order ----
+//@ macro func layRuleEntryMeta(K array[int]int, S array[int]string, I array[int]int, B array[int]bool, p int, m *RuleEntryMeta) bool { return K[p+0] == 1 && S[p+0] == m.AstID && K[p+1] == 1 && S[p+1] == m.GrlText && K[p+2] == 1 && S[p+2] == m.Snapshot && K[p+3] == 1 && S[p+3] == m.RuleName && K[p+4] == 1 && S[p+4] == m.RuleDescription && K[p+5] == 2 && I[p+5] == wrap_u64(m.Salience) && K[p+6] == 1 && S[p+6] == m.WhenScopeID && K[p+7] == 1 && S[p+7] == m.ThenScopeID }
+//@ macro func kindsRuleEntryMeta(K array[int]int, p int) bool { return K[p+0] == 1 && K[p+1] == 1 && K[p+2] == 1 && K[p+3] == 1 && K[p+4] == 1 && K[p+5] == 2 && K[p+6] == 1 && K[p+7] == 1 }
+//@ macro func sameRuleEntryMeta(a *RuleEntryMeta, b *RuleEntryMeta) bool { return a.AstID == b.AstID && a.GrlText == b.GrlText && a.Snapshot == b.Snapshot && a.RuleName == b.RuleName && a.RuleDescription == b.RuleDescription && a.Salience == b.Salience && a.WhenScopeID == b.WhenScopeID && a.ThenScopeID == b.ThenScopeID }
+//@ func (meta *RuleEntryMeta) WriteMetaTo(writer) (err)
+//@   serves C12
+//@   requires meta != nil && writer != nil && -9223372036854775808 <= meta.Salience && meta.Salience <= 9223372036854775807
+//@   nopanic
+//@   modifies @wstream
+//@   ensures[C12] encodes: err == nil ==> $wN == old($wN) + 8 && layRuleEntryMeta($wK, $wS, $wI, $wB, old($wN), meta)
+//@   ensures[C12] prefixkept: wPrefixKept(old($wN))
+//@   ensures[C12] errorsurfaces: ($wErrN > old($wErrN)) == (err != nil) && $wErrN >= old($wErrN)
+//@ func (meta *RuleEntryMeta) ReadMetaFrom(reader) (err)
+//@   serves C12 C20
+//@   requires meta != nil && reader != nil && $rPos >= 0
+//@   nopanic
+//@   modifies RuleEntryMeta.*, @rstream
+//@   ensures[C12] decodes: err == nil && kindsRuleEntryMeta($rK, old($rPos)) ==> $rPos == old($rPos) + 8 && layRuleEntryMetaR($rK, $rS, $rI, $rB, old($rPos), meta)
+//@   ensures[C12] completeloads: kindsRuleEntryMeta($rK, old($rPos)) && old($rPos) + 8 <= $rEnd ==> err == nil
+//@   ensures[C12] truncationfails: err == nil ==> $rPos <= $rEnd && $rPos >= old($rPos)
+//@ lemma[C12] mirror_RuleEntryMeta: forall K array[int]int, S array[int]string, I array[int]int, B array[int]bool, p int, a *RuleEntryMeta, b *RuleEntryMeta :: layRuleEntryMeta(K, S, I, B, p, a) && layRuleEntryMetaR(K, S, I, B, p, b) && -9223372036854775808 <= a.Salience && a.Salience <= 9223372036854775807 ==> sameRuleEntryMeta(a, b)
+//@ macro func layRuleEntryMetaR(K array[int]int, S array[int]string, I array[int]int, B array[int]bool, p int, m *RuleEntryMeta) bool { return K[p+0] == 1 && S[p+0] == m.AstID && K[p+1] == 1 && S[p+1] == m.GrlText && K[p+2] == 1 && S[p+2] == m.Snapshot && K[p+3] == 1 && S[p+3] == m.RuleName && K[p+4] == 1 && S[p+4] == m.RuleDescription && K[p+5] == 2 && m.Salience == wrap_s64(I[p+5]) && K[p+6] == 1 && S[p+6] == m.WhenScopeID && K[p+7] == 1 && S[p+7] == m.ThenScopeID }
+
+// ---- ThenExpressionMeta: token layout = NodeMeta fields, then the struct's own fields in DECLARATION order ----
+//@ macro func layThenExpressionMeta(K array[int]int, S array[int]string, I array[int]int, B array[int]bool, p int, m *ThenExpressionMeta) bool { return K[p+0] == 1 && S[p+0] == m.AstID && K[p+1] == 1 && S[p+1] == m.GrlText && K[p+2] == 1 && S[p+2] == m.Snapshot && K[p+3] == 1 && S[p+3] == m.AssignmentID && K[p+4] == 1 && S[p+4] == m.ExpressionAtomID }
+//@ macro func kindsThenExpressionMeta(K array[int]int, p int) bool { return K[p+0] == 1 && K[p+1] == 1 && K[p+2] == 1 && K[p+3] == 1 && K[p+4] == 1 }
+//@ macro func sameThenExpressionMeta(a *ThenExpressionMeta, b *ThenExpressionMeta) bool { return a.AstID == b.AstID && a.GrlText == b.GrlText && a.Snapshot == b.Snapshot && a.AssignmentID == b.AssignmentID && a.ExpressionAtomID == b.ExpressionAtomID }
+//@ func (meta *ThenExpressionMeta) WriteMetaTo(writer) (err)
+//@   serves C12
+//@   requires meta != nil && writer != nil
+//@   nopanic
+//@   modifies @wstream
+//@   ensures[C12] encodes: err == nil ==> $wN == old($wN) + 5 && layThenExpressionMeta($wK, $wS, $wI, $wB, old($wN), meta)
+//@   ensures[C12] prefixkept: wPrefixKept(old($wN))
+//@   ensures[C12] errorsurfaces: ($wErrN > old($wErrN)) == (err != nil) && $wErrN >= old($wErrN)
+//@ func (meta *ThenExpressionMeta) ReadMetaFrom(reader) (err)
+//@   serves C12 C20
+//@   requires meta != nil && reader != nil && $rPos >= 0
+//@   nopanic
+//@   modifies ThenExpressionMeta.*, @rstream
+//@   ensures[C12] decodes: err == nil && kindsThenExpressionMeta($rK, old($rPos)) ==> $rPos == old($rPos) + 5 && layThenExpressionMetaR($rK, $rS, $rI, $rB, old($rPos), meta)
+//@   ensures[C12] completeloads: kindsThenExpressionMeta($rK, old($rPos)) && old($rPos) + 5 <= $rEnd ==> err == nil
+//@   ensures[C12] truncationfails: err == nil ==> $rPos <= $rEnd && $rPos >= old($rPos)
+//@ lemma[C12] mirror_ThenExpressionMeta: forall K array[int]int, S array[int]string, I array[int]int, B array[int]bool, p int, a *ThenExpressionMeta, b *ThenExpressionMeta :: layThenExpressionMeta(K, S, I, B, p, a) && layThenExpressionMetaR(K, S, I, B, p, b) ==> sameThenExpressionMeta(a, b)
+//@ macro func layThenExpressionMetaR(K array[int]int, S array[int]string, I array[int]int, B array[int]bool, p int, m *ThenExpressionMeta) bool { return K[p+0] == 1 && S[p+0] == m.AstID && K[p+1] == 1 && S[p+1] == m.GrlText && K[p+2] == 1 && S[p+2] == m.Snapshot && K[p+3] == 1 && S[p+3] == m.AssignmentID && K[p+4] == 1 && S[p+4] == m.ExpressionAtomID }
+
+// ---- ThenScopeMeta: token layout = NodeMeta fields, then the struct's own fields in DECLARATION order ----
+//@ macro func layThenScopeMeta(K array[int]int, S array[int]string, I array[int]int, B array[int]bool, p int, m *ThenScopeMeta) bool { return K[p+0] == 1 && S[p+0] == m.AstID && K[p+1] == 1 && S[p+1] == m.GrlText && K[p+2] == 1 && S[p+2] == m.Snapshot && K[p+3] == 1 && S[p+3] == m.ThenExpressionListID }
+//@ macro func kindsThenScopeMeta(K array[int]int, p int) bool { return K[p+0] == 1 && K[p+1] == 1 && K[p+2] == 1 && K[p+3] == 1 }
+//@ macro func sameThenScopeMeta(a *ThenScopeMeta, b *ThenScopeMeta) bool { return a.AstID == b.AstID && a.GrlText == b.GrlText && a.Snapshot == b.Snapshot && a.ThenExpressionListID == b.ThenExpressionListID }
+//@ func (meta *ThenScopeMeta) WriteMetaTo(writer) (err)
+//@   serves C12
+//@   requires meta != nil && writer != nil
+//@   nopanic
+//@   modifies @wstream
+//@   ensures[C12] encodes: err == nil ==> $wN == old($wN) + 4 && layThenScopeMeta($wK, $wS, $wI, $wB, old($wN), meta)
+//@   ensures[C12] prefixkept: wPrefixKept(old($wN))
+//@   ensures[C12] errorsurfaces: ($wErrN > old($wErrN)) == (err != nil) && $wErrN >= old($wErrN)
+//@ func (meta *ThenScopeMeta) ReadMetaFrom(reader) (err)
+//@   serves C12 C20
+//@   requires meta != nil && reader != nil && $rPos >= 0
+//@   nopanic
+//@   modifies ThenScopeMeta.*, @rstream
+//@   ensures[C12] decodes: err == nil && kindsThenScopeMeta($rK, old($rPos)) ==> $rPos == old($rPos) + 4 && layThenScopeMetaR($rK, $rS, $rI, $rB, old($rPos), meta)
+//@   ensures[C12] completeloads: kindsThenScopeMeta($rK, old($rPos)) && old($rPos) + 4 <= $rEnd ==> err == nil
+//@   ensures[C12] truncationfails: err == nil ==> $rPos <= $rEnd && $rPos >= old($rPos)
+//@ lemma[C12] mirror_ThenScopeMeta: forall K array[int]int, S array[int]string, I array[int]int, B array[int]bool, p int, a *ThenScopeMeta, b *ThenScopeMeta :: layThenScopeMeta(K, S, I, B, p, a) && layThenScopeMetaR(K, S, I, B, p, b) ==> sameThenScopeMeta(a, b)
+//@ macro func layThenScopeMetaR(K array[int]int, S array[int]string, I array[int]int, B array[int]bool, p int, m *ThenScopeMeta) bool { return K[p+0] == 1 && S[p+0] == m.AstID && K[p+1] == 1 && S[p+1] == m.GrlText && K[p+2] == 1 && S[p+2] == m.Snapshot && K[p+3] == 1 && S[p+3] == m.ThenExpressionListID }
+
+// ---- VariableMeta: token layout = NodeMeta fields, then the struct's own fields in DECLARATION order ----
+//@ macro func layVariableMeta(K array[int]int, S array[int]string, I array[int]int, B array[int]bool, p int, m *VariableMeta) bool { return K[p+0] == 1 && S[p+0] == m.AstID && K[p+1] == 1 && S[p+1] == m.GrlText && K[p+2] == 1 && S[p+2] == m.Snapshot && K[p+3] == 1 && S[p+3] == m.Name && K[p+4] == 1 && S[p+4] == m.VariableID && K[p+5] == 1 && S[p+5] == m.ArrayMapSelectorID }
+//@ macro func kindsVariableMeta(K array[int]int, p int) bool { return K[p+0] == 1 && K[p+1] == 1 && K[p+2] == 1 && K[p+3] == 1 && K[p+4] == 1 && K[p+5] == 1 }
+//@ macro func sameVariableMeta(a *VariableMeta, b *VariableMeta) bool { return a.AstID == b.AstID && a.GrlText == b.GrlText && a.Snapshot == b.Snapshot && a.Name == b.Name && a.VariableID == b.VariableID && a.ArrayMapSelectorID == b.ArrayMapSelectorID }
+//@ func (meta *VariableMeta) WriteMetaTo(writer) (err)
+//@   serves C12
+//@   requires meta != nil && writer != nil
+//@   nopanic
+//@   modifies @wstream
+//@   ensures[C12] encodes: err == nil ==> $wN == old($wN) + 6 && layVariableMeta($wK, $wS, $wI, $wB, old($wN), meta)
+//@   ensures[C12] prefixkept: wPrefixKept(old($wN))
+//@   ensures[C12] errorsurfaces: ($wErrN > old($wErrN)) == (err != nil) && $wErrN >= old($wErrN)
+//@ func (meta *VariableMeta) ReadMetaFrom(reader) (err)
+//@   serves C12 C20
+//@   requires meta != nil && reader != nil && $rPos >= 0
+//@   nopanic
+//@   modifies VariableMeta.*, @rstream
+//@   ensures[C12] decodes: err == nil && kindsVariableMeta($rK, old($rPos)) ==> $rPos == old($rPos) + 6 && layVariableMetaR($rK, $rS, $rI, $rB, old($rPos), meta)
+//@   ensures[C12] completeloads: kindsVariableMeta($rK, old($rPos)) && old($rPos) + 6 <= $rEnd ==> err == nil
+//@   ensures[C12] truncationfails: err == nil ==> $rPos <= $rEnd && $rPos >= old($rPos)
+//@ lemma[C12] mirror_VariableMeta: forall K array[int]int, S array[int]string, I array[int]int, B array[int]bool, p int, a *VariableMeta, b *VariableMeta :: layVariableMeta(K, S, I, B, p, a) && layVariableMetaR(K, S, I, B, p, b) ==> sameVariableMeta(a, b)
+//@ macro func layVariableMetaR(K array[int]int, S array[int]string, I array[int]int, B array[int]bool, p int, m *VariableMeta) bool { return K[p+0] == 1 && S[p+0] == m.AstID && K[p+1] == 1 && S[p+1] == m.GrlText && K[p+2] == 1 && S[p+2] == m.Snapshot && K[p+3] == 1 && S[p+3] == m.Name && K[p+4] == 1 && S[p+4] == m.VariableID && K[p+5] == 1 && S[p+5] == m.ArrayMapSelectorID }
+
+// ---- WhenScopeMeta: token layout = NodeMeta fields, then the struct's own fields in DECLARATION order ----
+//@ macro func layWhenScopeMeta(K array[int]int, S array[int]string, I array[int]int, B array[int]bool, p int, m *WhenScopeMeta) bool { return K[p+0] == 1 && S[p+0] == m.AstID && K[p+1] == 1 && S[p+1] == m.GrlText && K[p+2] == 1 && S[p+2] == m.Snapshot && K[p+3] == 1 && S[p+3] == m.ExpressionID }
+//@ macro func kindsWhenScopeMeta(K array[int]int, p int) bool { return K[p+0] == 1 && K[p+1] == 1 && K[p+2] == 1 && K[p+3] == 1 }
+//@ macro func sameWhenScopeMeta(a *WhenScopeMeta, b *WhenScopeMeta) bool { return a.AstID == b.AstID && a.GrlText == b.GrlText && a.Snapshot == b.Snapshot && a.ExpressionID == b.ExpressionID }
+//@ func (meta *WhenScopeMeta) WriteMetaTo(writer) (err)
+//@   serves C12
+//@   requires meta != nil && writer != nil
+//@   nopanic
+//@   modifies @wstream
+//@   ensures[C12] encodes: err == nil ==> $wN == old($wN) + 4 && layWhenScopeMeta($wK, $wS, $wI, $wB, old($wN), meta)
+//@   ensures[C12] prefixkept: wPrefixKept(old($wN))
+//@   ensures[C12] errorsurfaces: ($wErrN > old($wErrN)) == (err != nil) && $wErrN >= old($wErrN)
+//@ func (meta *WhenScopeMeta) ReadMetaFrom(reader) (err)
+//@   serves C12 C20
+//@   requires meta != nil && reader != nil && $rPos >= 0
+//@   nopanic
+//@   modifies WhenScopeMeta.*, @rstream
+//@   ensures[C12] decodes: err == nil && kindsWhenScopeMeta($rK, old($rPos)) ==> $rPos == old($rPos) + 4 && layWhenScopeMetaR($rK, $rS, $rI, $rB, old($rPos), meta)
+//@   ensures[C12] completeloads: kindsWhenScopeMeta($rK, old($rPos)) && old($rPos) + 4 <= $rEnd ==> err == nil
+//@   ensures[C12] truncationfails: err == nil ==> $rPos <= $rEnd && $rPos >= old($rPos)
+//@ lemma[C12] mirror_WhenScopeMeta: forall K array[int]int, S array[int]string, I array[int]int, B array[int]bool, p int, a *WhenScopeMeta, b *WhenScopeMeta :: layWhenScopeMeta(K, S, I, B, p, a) && layWhenScopeMetaR(K, S, I, B, p, b) ==> sameWhenScopeMeta(a, b)
+//@ macro func layWhenScopeMetaR(K array[int]int, S array[int]string, I array[int]int, B array[int]bool, p int, m *WhenScopeMeta) bool { return K[p+0] == 1 && S[p+0] == m.AstID && K[p+1] == 1 && S[p+1] == m.GrlText && K[p+2] == 1 && S[p+2] == m.Snapshot && K[p+3] == 1 && S[p+3] == m.ExpressionID }
+
+//@ macro func layIDs(K array[int]int, S array[int]string, I array[int]int, p int, ids []string) bool { return K[p] == 2 && I[p] == len(ids) && (forall k int :: 0 <= k && k < len(ids) ==> K[p+1+k] == 1 && S[p+1+k] == ids[k]) }
+
+// ---- ArgumentListMeta: NodeMeta, count, then `count` strings ----
+//@ func (meta *ArgumentListMeta) WriteMetaTo(writer) (err)
+//@   serves C12
+//@   requires meta != nil && writer != nil
+//@   nopanic
+//@   modifies @wstream
+//@   ensures[C12] encodes: err == nil ==> $wN == old($wN) + 4 + len(meta.ArgumentASTIDs) && $wK[old($wN)] == 1 && $wS[old($wN)] == meta.AstID && $wK[old($wN)+1] == 1 && $wS[old($wN)+1] == meta.GrlText && $wK[old($wN)+2] == 1 && $wS[old($wN)+2] == meta.Snapshot && layIDs($wK, $wS, $wI, old($wN) + 3, meta.ArgumentASTIDs)
+//@   ensures[C12] prefixkept: wPrefixKept(old($wN))
+//@   ensures[C12] errorsurfaces: ($wErrN > old($wErrN)) == (err != nil) && $wErrN >= old($wErrN)
+//@   invariant@1 $wN == old($wN) + 4 + $i && $wErrN == old($wErrN) && wPrefixKept(old($wN))
+//@   invariant@1 $wK[old($wN)] == 1 && $wS[old($wN)] == meta.AstID && $wK[old($wN)+1] == 1 && $wS[old($wN)+1] == meta.GrlText && $wK[old($wN)+2] == 1 && $wS[old($wN)+2] == meta.Snapshot && $wK[old($wN)+3] == 2 && $wI[old($wN)+3] == len(meta.ArgumentASTIDs)
+//@   invariant@1 forall k int :: 0 <= k && k < $i ==> $wK[old($wN)+4+k] == 1 && $wS[old($wN)+4+k] == meta.ArgumentASTIDs[k]
+//@ macro func kindsArgumentListMeta(K array[int]int, I array[int]int, p int) bool { return K[p] == 1 && K[p+1] == 1 && K[p+2] == 1 && K[p+3] == 2 && (forall k int :: 0 <= k && k < I[p+3] ==> K[p+4+k] == 1) }
+//@ func (meta *ArgumentListMeta) ReadMetaFrom(reader) (err)
+//@   serves C12 C20
+//@   requires meta != nil && reader != nil && $rPos >= 0
+//@   nopanic
+//@   modifies ArgumentListMeta.*, @rstream, $allocated
+//@   ensures[C12] decodes: err == nil && kindsArgumentListMeta($rK, $rI, old($rPos)) ==> meta.AstID == $rS[old($rPos)] && meta.GrlText == $rS[old($rPos)+1] && meta.Snapshot == $rS[old($rPos)+2] && layIDs($rK, $rS, $rI, old($rPos) + 3, meta.ArgumentASTIDs) && $rPos == old($rPos) + 4 + len(meta.ArgumentASTIDs)
+//@   ensures[C12] completeloads: kindsArgumentListMeta($rK, $rI, old($rPos)) && $rI[old($rPos)+3] >= 0 && old($rPos) + 4 + $rI[old($rPos)+3] <= $rEnd ==> err == nil
+//@   ensures[C12] truncationfails: err == nil ==> $rPos <= $rEnd && $rPos >= old($rPos)
+//@   invariant@1 0 <= index && index <= integer && $rPos == old($rPos) + 4 + index && $rPos <= $rEnd && len(meta.ArgumentASTIDs) == integer
+//@   invariant@1 kindsArgumentListMeta($rK, $rI, old($rPos)) ==> integer == $rI[old($rPos)+3] && meta.AstID == $rS[old($rPos)] && meta.GrlText == $rS[old($rPos)+1] && meta.Snapshot == $rS[old($rPos)+2] && (forall k int :: 0 <= k && k < index ==> meta.ArgumentASTIDs[k] == $rS[old($rPos)+4+k])
+//@ lemma[C12] mirror_ArgumentListMeta: forall K array[int]int, S array[int]string, I array[int]int, p int, a []string, b []string :: layIDs(K, S, I, p, a) && layIDs(K, S, I, p, b) ==> len(a) == len(b) && (forall k int :: 0 <= k && k < len(a) ==> a[k] == b[k])
+
+// ---- ThenExpressionListMeta: NodeMeta, count, then `count` strings ----
+//@ func (meta *ThenExpressionListMeta) WriteMetaTo(writer) (err)
+//@   serves C12
+//@   requires meta != nil && writer != nil
+//@   nopanic
+//@   modifies @wstream
+//@   ensures[C12] encodes: err == nil ==> $wN == old($wN) + 4 + len(meta.ThenExpressionIDs) && $wK[old($wN)] == 1 && $wS[old($wN)] == meta.AstID && $wK[old($wN)+1] == 1 && $wS[old($wN)+1] == meta.GrlText && $wK[old($wN)+2] == 1 && $wS[old($wN)+2] == meta.Snapshot && layIDs($wK, $wS, $wI, old($wN) + 3, meta.ThenExpressionIDs)
+//@   ensures[C12] prefixkept: wPrefixKept(old($wN))
+//@   ensures[C12] errorsurfaces: ($wErrN > old($wErrN)) == (err != nil) && $wErrN >= old($wErrN)
+//@   invariant@1 $wN == old($wN) + 4 + $i && $wErrN == old($wErrN) && wPrefixKept(old($wN))
+//@   invariant@1 $wK[old($wN)] == 1 && $wS[old($wN)] == meta.AstID && $wK[old($wN)+1] == 1 && $wS[old($wN)+1] == meta.GrlText && $wK[old($wN)+2] == 1 && $wS[old($wN)+2] == meta.Snapshot && $wK[old($wN)+3] == 2 && $wI[old($wN)+3] == len(meta.ThenExpressionIDs)
+//@   invariant@1 forall k int :: 0 <= k && k < $i ==> $wK[old($wN)+4+k] == 1 && $wS[old($wN)+4+k] == meta.ThenExpressionIDs[k]
+//@ macro func kindsThenExpressionListMeta(K array[int]int, I array[int]int, p int) bool { return K[p] == 1 && K[p+1] == 1 && K[p+2] == 1 && K[p+3] == 2 && (forall k int :: 0 <= k && k < I[p+3] ==> K[p+4+k] == 1) }
+//@ func (meta *ThenExpressionListMeta) ReadMetaFrom(reader) (err)
+//@   serves C12 C20
+//@   requires meta != nil && reader != nil && $rPos >= 0
+//@   nopanic
+//@   modifies ThenExpressionListMeta.*, @rstream, $allocated
+//@   ensures[C12] decodes: err == nil && kindsThenExpressionListMeta($rK, $rI, old($rPos)) ==> meta.AstID == $rS[old($rPos)] && meta.GrlText == $rS[old($rPos)+1] && meta.Snapshot == $rS[old($rPos)+2] && layIDs($rK, $rS, $rI, old($rPos) + 3, meta.ThenExpressionIDs) && $rPos == old($rPos) + 4 + len(meta.ThenExpressionIDs)
+//@   ensures[C12] completeloads: kindsThenExpressionListMeta($rK, $rI, old($rPos)) && $rI[old($rPos)+3] >= 0 && old($rPos) + 4 + $rI[old($rPos)+3] <= $rEnd ==> err == nil
+//@   ensures[C12] truncationfails: err == nil ==> $rPos <= $rEnd && $rPos >= old($rPos)
+//@   invariant@1 0 <= index && index <= count && $rPos == old($rPos) + 4 + index && $rPos <= $rEnd && len(meta.ThenExpressionIDs) == count
+//@   invariant@1 kindsThenExpressionListMeta($rK, $rI, old($rPos)) ==> count == $rI[old($rPos)+3] && meta.AstID == $rS[old($rPos)] && meta.GrlText == $rS[old($rPos)+1] && meta.Snapshot == $rS[old($rPos)+2] && (forall k int :: 0 <= k && k < index ==> meta.ThenExpressionIDs[k] == $rS[old($rPos)+4+k])
+//@ lemma[C12] mirror_ThenExpressionListMeta: forall K array[int]int, S array[int]string, I array[int]int, p int, a []string, b []string :: layIDs(K, S, I, p, a) && layIDs(K, S, I, p, b) ==> len(a) == len(b) && (forall k int :: 0 <= k && k < len(a) ==> a[k] == b[k])
+
+
+// ---- catalogue level: every failed write surfaces; a load that did not read the complete catalogue fails ----
+//@ ghost var $catReadFailed bool         // the last ReadCatalogFromReader returned an error
+//@ extern func (m Meta) WriteMetaTo(writer) (err)
+//@   nopanic
+//@   modifies @wstream
+//@   ensures ($wErrN > old($wErrN)) == (err != nil) && $wErrN >= old($wErrN)
+//@ extern func (m Meta) GetASTType() (t)
+//@   nopanic
+//@ extern func (m Meta) ReadMetaFrom(reader) (err)
+//@   nopanic
+//@   modifies *, @rstream
+//@   ensures err == nil ==> $rPos <= $rEnd
+//@   ensures $rPos >= old($rPos)
+//@ func (cat *Catalog) WriteCatalogToWriter(writer) (err)
+//@   serves C12
+//@   requires cat != nil && writer != nil
+//@   requires forall k string :: has(cat.Data, k) ==> cat.Data[k] != nil
+//@   nopanic
+//@   modifies @wstream
+//@   ensures[C12] errorsurfaces: ($wErrN > old($wErrN)) == (err != nil)
+//@   invariant@1 $wErrN == old($wErrN)
+//@   invariant@2 $wErrN == old($wErrN)
+//@   invariant@3 $wErrN == old($wErrN)
+//@   invariant@4 $wErrN == old($wErrN)
+//@   invariant@5 $wErrN == old($wErrN)
+//@   invariant@6 $wErrN == old($wErrN)
+//@   invariant@7 $wErrN == old($wErrN)
+//@   invariant@8 $wErrN == old($wErrN)
+
+// LoadKnowledgeBaseFromReader: a nil error means the catalogue was read completely; with overwrite=false an existing entry is untouched
+//@ extern func (cat *Catalog) ReadCatalogFromReader(reader) (err)
+//@   modifies *, @rstream
+//@   ghost_exit $catReadFailed = err != nil
+//@ extern func (cat *Catalog) BuildKnowledgeBase() (kb, err)
+//@   modifies *
+//@   ensures err == nil ==> kb != nil
+//@ func (lib *KnowledgeLibrary) LoadKnowledgeBaseFromReader(reader, overwrite) (retKb, retErr)
+//@   serves C12 C20
+//@   requires lib != nil && lib.Library != nil
+//@   opt alloc=1
+//@   nopanic
+//@   modifies *, @rstream, $catReadFailed
+//@   ensures[C12] incompletefails: $catReadFailed ==> retErr != nil
+//@   ensures[C12] errornokb: retErr != nil ==> retKb == nil
